@@ -192,6 +192,21 @@ def check_deep(case, acc):
 
 
 def check_case(case, acc):
+    if case.get("flip_config"):
+        # the documentation tells users to switch the consistency checks on from their own code (anytree.config.ASSERTIONS =
+        # True after the import): whatever that does, it does the same for both mixins
+        import anytree.config as config
+
+        old = config.ASSERTIONS
+        config.ASSERTIONS = not old
+        try:
+            return _check_case(case, acc)
+        finally:
+            config.ASSERTIONS = old
+    return _check_case(case, acc)
+
+
+def _check_case(case, acc):
     if case.get("kind") == "deep":
         return check_deep(case, acc)
     state = case.get("state") or mut.all_roots(case["n"])
@@ -294,11 +309,11 @@ def run_task(task, acc):
         return
     if task["engine"] == "enum":
         cases = mut.enum_fault_cases("HNM", task["n"], task["index"], task["count"], fault_hooks=mut.HOOKS if task.get("pair", "plain") == "plain" else (), pairs=False, invalid=False, maxlen=task["maxlen"], routes=task["routes"], evict=True)
-        acc.run_enum(check_case, (dict(c, pair=task.get("pair", "plain"), full_queries=(k % 4 == 0)) for k, c in enumerate(cases)))
+        acc.run_enum(check_case, (dict(c, pair=task.get("pair", "plain"), full_queries=(k % 4 == 0), flip_config=(k % 3 == 1)) for k, c in enumerate(cases)))
     else:
         from hypothesis import strategies as st
 
-        strat = st.tuples(mut.history_strategy(max_nodes=7, max_steps=25, faults="all+evict", invalid=False, class_specs=["HNM"]), st.sampled_from(["plain", "plain", "eq", "rev"])).map(lambda t: dict(t[0], pair=t[1], reads_between=(t[0]["n"] % 3 != 0) if len(t[0]["steps"]) % 2 else [[len(t[0]["steps"]) + j, j * j] [: j % 3] for j in range(1, 6)]))
+        strat = st.tuples(mut.history_strategy(max_nodes=7, max_steps=25, faults="all+evict", invalid=False, class_specs=["HNM"]), st.sampled_from(["plain", "plain", "eq", "rev"])).map(lambda t: dict(t[0], pair=t[1], flip_config=(len(t[0]["steps"]) % 3 == 1), reads_between=(t[0]["n"] % 3 != 0) if len(t[0]["steps"]) % 2 else [[len(t[0]["steps"]) + j, j * j] [: j % 3] for j in range(1, 6)]))
         acc.run_hypothesis(check_case, strat, task["examples"], task["seed"])
 
 
